@@ -523,13 +523,23 @@ func rules2BitTable(c *Ctx, r *Report, itonFn *ssa.Function, itonOf map[int64]in
 		}
 		nApp++
 		arg := s.expr(cl.Call.Args[1])
-		want := "slice(load(G:dnaFrom2bit)[load(P1[LOOP"
-		okArg := strings.HasPrefix(arg.String(), want) && strings.HasSuffix(arg.String(), "])], _, _)")
+		okArg := false
+		var idxSym *Sym
+		if arg.Op == "slice" && arg.Args[1].String() == "_" && arg.Args[2].String() == "_" && arg.Args[0].Op == "index" && arg.Args[0].Args[0].String() == "load(G:"+g.Name()+")" {
+			el := arg.Args[0].Args[1]
+			if el.Op == "load" && el.Args[0].Op == "index" && el.Args[0].Args[0].String() == "P1" {
+				okArg, idxSym = true, el.Args[0].Args[1]
+			}
+		}
 		r.check(okArg, "T-2BIT", fname(f), "appended row", c.pos(cl.Pos()), "each step appends the whole table row of one source byte", "appended value is "+arg.String()+", want dnaFrom2bit[src[i]][:]")
 		// loop over all of src
 		for _, e := range arg.find(func(x *Sym) bool { return x.Op == "loop" }) {
 			if ph, ok := e.Val.(*ssa.Phi); ok {
-				l, why := findCountedLoop(ph)
+				var idxVal ssa.Value = ph
+				if idxSym != nil && idxSym.Val != nil {
+					idxVal = idxSym.Val
+				}
+				l, why := findCountedLoopAny(ph, idxVal)
 				if why != "" {
 					r.undecided("T-2BIT", fname(f), "loop", c.pos(ph.Pos()), why)
 				} else {
